@@ -11,6 +11,24 @@ CHECKS = {
    note="Bounded universe (depth<=1 quick, selected depth 2 thorough; names {a,b}; capsules c1,c2). Trusted: type projection via public accessors; TLC."),
 }
 
+CHECKS.update({
+ "C01": dict(
+   technique="TLC-enumerated (concrete, weakened) operand tuples replayed into the real operation methods; TLC trace validation with the Admits approximation order; TLC model check of Admits/weakening algebra",
+   text="Bounded-exhaustive: for all 21 operation methods TLC enumerates every well-typed operand tuple of a bounded value universe and every weakening of one position (quick) or up to two positions (thorough) at any depth by an unknown drawn from a refinement menu that is true of the replaced part; both the concrete and the weakened call run on the real library and TLC judges each recorded pair (premise Admits(weak, conc); NoNewFailure; ResultAdmits; KnownInKnownOut; NeverNull). The relation Admits and the weakening generator are themselves model-checked (reflexive, transitive, generator sound).",
+   design_ref="DESIGN.md section 4 C01",
+   note="Universe bounds: numbers on a dyadic lattice plus both infinities, strings over {a,b,c}, collections of width <= 2 and depth <= 2. Trusted: Project/Concretize in the harness (inputs are re-projected and premises re-decided by TLC), TLC."),
+ "C02": dict(
+   technique="TLC-enumerated wholly known operand tuples replayed into the real operation methods under several physical representations; TLC trace validation against a TLA+ reference semantics (exact rational arithmetic, truth tables, member lookup)",
+   text="Bounded-exhaustive: every wholly known (and ill-typed) operand tuple of the bounded universe per operation is executed on the real library and TLC compares the projected result, its type and its acceptance/rejection with the reference semantics Ref of Ops.tla; the reference's own algebra is model-checked.",
+   design_ref="DESIGN.md section 4 C02",
+   note="Numeric accuracy beyond the small dyadic lattice (huge integers, 512-bit decimals, precision selection) is outside TLA+ integers and is not decided; landmarks are used for order only. Trusted: harness projection, TLC."),
+ "C05": dict(
+   technique="TLA+ state machine of the refinement builder model-checked by TLC (Faithful, Narrowing, RejectedIsEmpty); every maximal behaviour replayed into the real RefinementBuilder and validated step by step by a TLC trace spec; relational TLC check of safe-prefix continuation safety over a Unicode-risk alphabet",
+   text="Model checking plus conformance: Refine.tla is checked exhaustively (about 70k states) and all its maximal behaviours up to the depth bound are replayed against the real builder with NewValue(), range accessors and Range().Includes(candidate) observed after every call; TLC steps the model alongside the recorded trace and rejects any divergence (exact range, collapse to known only when exact, contradictions rejected, consistent calls accepted, Includes answers sound). Prefix safety is checked for every (prefix, continuation) pair over an abstract alphabet of combining marks, Hangul jamo, ZWJ, emoji modifiers, regional indicators, CR/LF and delimiters.",
+   design_ref="DESIGN.md section 4 C05",
+   note="Depth 3 (thin menu) + depth 2 (full menu) quick; depth 3 full + depth 4 thin thorough. Bounds on a known null and calls foreign to the type are recorded, not judged. Trusted: harness projection, TLC; the normal form of strings is go-cty's own (StringVal)."),
+})
+
 NOT_APPLICABLE = {}
 
 def main():
